@@ -429,6 +429,99 @@ theorem safeB_sound {n0 : Nat} {A0 : List Var} {b : List Stmt} (hb : safeB A0 b 
   obtain ⟨A', hA⟩ := hb
   exact (anaL_sound b hA h he).2
 
+/-! ### well-formed heaps: everything reachable exists -/
+
+/-- every buffer referenced by a variable, an attribute or a returned value has been allocated -/
+structure WF (σ : St) : Prop where
+  env : ∀ x b, b ∈ (get σ.env x).all → b < σ.next
+  attrs : ∀ n b, b ∈ (get σ.attrs n).all → b < σ.next
+  rets : ∀ o, o ∈ σ.rets → ∀ b, b ∈ o.all → b < σ.next
+
+theorem wf_bind {σ : St} (h : WF σ) (x : Var) (o : Obj) (ho : ∀ b, b ∈ o.all → b < σ.next) : WF (σ.bind x o) := by
+  refine ⟨?_, h.attrs, h.rets⟩
+  intro y b hb
+  simp only [St.bind, get_cons] at hb
+  by_cases hy : y = x
+  · rw [if_pos hy] at hb; exact ho b hb
+  · rw [if_neg hy] at hb; exact h.env y b hb
+
+theorem wf_grow {σ : St} (h : WF σ) (k : Nat) : WF { σ with next := σ.next + k } :=
+  ⟨fun x b hb => Nat.lt_of_lt_of_le (h.env x b hb) (Nat.le_add_right _ _),
+   fun n b hb => Nat.lt_of_lt_of_le (h.attrs n b hb) (Nat.le_add_right _ _),
+   fun o ho b hb => Nat.lt_of_lt_of_le (h.rets o ho b hb) (Nat.le_add_right _ _)⟩
+
+theorem wf_alloc {σ : St} (h : WF σ) (x : Var) (m : Bool) : WF (σ.alloc x m) := by
+  cases m
+  · have := wf_bind (wf_grow h 1) x (Obj.arr σ.next) (by intro b hb; simp at hb; simp [hb])
+    simpa [St.alloc, St.bind] using this
+  · have := wf_bind (wf_grow h 2) x (Obj.marr σ.next (σ.next + 1)) (by
+      intro b hb
+      have : b = σ.next ∨ b = σ.next + 1 := by simpa using hb
+      rcases this with e | e <;> simp [e])
+    simpa [St.alloc, St.bind] using this
+
+theorem wf_write {σ : St} (h : WF σ) (bs : List BufId) : WF (σ.write bs) := ⟨h.env, h.attrs, h.rets⟩
+
+theorem wf_ite {σ : St} (h : WF σ) (d : Var) (c : Bool) (o : Obj) (m : Bool) (ho : ∀ b, b ∈ o.all → b < σ.next) :
+    WF (if c = true then σ.bind d o else σ.alloc d m) := by
+  cases c
+  · exact wf_alloc h d m
+  · exact wf_bind h d o ho
+
+theorem step_wf {σ : St} (h : WF σ) (op : Op) : WF (step σ op) := by
+  cases op with
+  | asarray d s =>
+    exact wf_ite h d _ _ _ fun b hb => h.env s b (by
+      simp only [Obj.all, List.mem_append] at hb ⊢; simp at hb; exact Or.inl hb)
+  | reshape d s => exact wf_ite h d _ _ _ (h.env s)
+  | view d s c => exact wf_bind h d _ (h.env s)
+  | copy d s => exact wf_alloc h d _
+  | fresh d => exact wf_alloc h d _
+  | scalar d => exact wf_bind h d _ (by simp)
+  | wrapList d s => exact wf_bind h d _ (h.env s)
+  | maArray d s => exact wf_ite h d _ _ _ (h.env s)
+  | maCopy d s => exact wf_alloc h d _
+  | filled d s => exact wf_ite h d _ _ _ (h.env s)
+  | augName x =>
+    show WF (if (get σ.env x).all.isEmpty = true then σ.alloc x else σ.write (get σ.env x).bufs)
+    cases (get σ.env x).all.isEmpty
+    · exact wf_write h _
+    · exact wf_alloc h x false
+  | setItem x => exact wf_write h _
+  | setMask x =>
+    show WF (if (get σ.env x).mask.isEmpty = true then
+          { σ with next := σ.next + 1, env := (x, { get σ.env x with mask := [σ.next] }) :: σ.env }
+        else σ.write (get σ.env x).mask)
+    cases (get σ.env x).mask.isEmpty
+    · exact wf_write h _
+    · have := wf_bind (wf_grow h 1) x { get σ.env x with mask := [σ.next] } (by
+        intro b hb
+        have hb' : b ∈ (get σ.env x).bufs ∨ b = σ.next := by simpa [Obj.all] using hb
+        rcases hb' with e | e
+        · exact Nat.lt_succ_of_lt (h.env x b (by simp [Obj.all, e]))
+        · simp [e])
+      simpa [St.bind] using this
+  | store n s =>
+    refine ⟨h.env, ?_, h.rets⟩
+    intro m b hb
+    simp only [step, get_cons] at hb
+    by_cases hm : m = n
+    · rw [if_pos hm] at hb; exact h.env s b hb
+    · rw [if_neg hm] at hb; exact h.attrs m b hb
+  | load d n => exact wf_bind h d _ (h.attrs n)
+  | ret s =>
+    refine ⟨h.env, h.attrs, ?_⟩
+    intro o ho b hb
+    simp only [step, List.mem_cons] at ho
+    rcases ho with e | e
+    · rw [e] at hb; exact h.env s b hb
+    · exact h.rets o e b hb
+
+theorem run_wf (p : List Op) : ∀ {σ : St}, WF σ → WF (run σ p) := by
+  induction p with
+  | nil => intro σ h; exact h
+  | cons op t ih => intro σ h; rw [run_cons]; exact ih (step_wf h op)
+
 /-! ### histories: a sequence of calls, the caller re-binding arguments in between -/
 
 /-- run a list of calls; before each call the caller chooses the argument binding from what exists -/
